@@ -58,6 +58,20 @@ def main() -> None:
     gens = {g: importlib.import_module("fcp_" + g) for g in ("dbc", "can_c", "cpp", "nop")}
 
     schemas = w["schemas"]
+
+    def parse_schema(sid, logger=None):
+        """Pool schemas are either one text or 'FILES:{json}' (a module tree, written once per process to a fixed place)."""
+        text = schemas[sid]
+        if not text.startswith("FILES:"):
+            return P.get_fcp_from_string(text, logger) if logger is not None else P.get_fcp_from_string(text)
+        d = work / f"tree_{sid}"
+        for rel, body in json.loads(text[6:]).items():
+            fp = d / rel
+            fp.parent.mkdir(parents=True, exist_ok=True)
+            if not fp.is_file() or fp.read_text() != body:
+                fp.write_text(body)
+        return P.get_fcp(str(d / "main.fcp"), logger) if logger is not None else P.get_fcp(str(d / "main.fcp"))
+
     trees = {}        # schema id -> kept tree object
     from_file = set() # schema ids whose kept tree was parsed from a scratch FILE (its nodes carry that path)
     encoders = {}     # schema id -> kept PackedEncoder
@@ -71,9 +85,16 @@ def main() -> None:
                 if kind == "clock":
                     clock.advance(op[1])
                 elif kind == "parse_text":
-                    r = P.get_fcp_from_string(schemas[op[1]])
+                    r = parse_schema(op[1])
                     if r.is_ok():
                         trees[op[1]] = r.unwrap()
+                        if schemas[op[1]].startswith("FILES:"):
+                            from_file.add(op[1])
+                elif kind == "parse_file" and schemas[op[1]].startswith("FILES:"):
+                    r = parse_schema(op[1])
+                    if r.is_ok():
+                        trees[op[1]] = r.unwrap()
+                        from_file.add(op[1])
                 elif kind == "parse_file":
                     d = work / f"s{oi}"
                     d.mkdir()
@@ -82,6 +103,8 @@ def main() -> None:
                     if r.is_ok():
                         trees[op[1]] = r.unwrap()
                         from_file.add(op[1])
+                elif kind == "parse_broken" and schemas[op[1]].startswith("FILES:"):
+                    pass
                 elif kind == "parse_broken":
                     text = schemas[op[1]]
                     cut = op[2] % max(len(text), 1)
@@ -90,13 +113,13 @@ def main() -> None:
                         fn = getattr(P.get_fcp_from_string, "__wrapped__", P.get_fcp_from_string)
                         fn.__defaults__[0].error(r.err())
                 elif kind == "verify":
-                    t = trees.get(op[1]) or P.get_fcp_from_string(schemas[op[1]]).unwrap()
+                    t = trees.get(op[1]) or parse_schema(op[1]).unwrap()
                     v = V.make_general_verifier()
                     for g in op[2]:
                         gens[g].Generator().register_checks(v)
                     v.verify(t)
                 elif kind == "layout":
-                    t = trees.get(op[1]) or P.get_fcp_from_string(schemas[op[1]]).unwrap()
+                    t = trees.get(op[1]) or parse_schema(op[1]).unwrap()
                     trees.setdefault(op[1], t)
                     enc = encoders.get(op[1])
                     if enc is None or enc.fcp is not t:
@@ -109,12 +132,17 @@ def main() -> None:
                 elif kind == "reflection":
                     from fcp.reflection import get_reflection_schema
                     rs = get_reflection_schema().unwrap()
-                    t = trees.get(op[1]) or P.get_fcp_from_string(schemas[op[1]]).unwrap()
+                    t = trees.get(op[1]) or parse_schema(op[1]).unwrap()
                     SER.encode(rs, "Fcp", t.reflection())
                 elif kind == "generate":
                     _, g, sid, reuse = op[:4]
                     disk = len(op) > 4 and bool(op[4]) and g != "reflection"
                     reused = bool(reuse and sid in trees)
+                    if g == "reflection" and schemas[sid].startswith("FILES:"):
+                        obs.append({"op": oi, "generator": g, "schema": sid, "reused": False, "disk": False,
+                                    "error": "Skipped: the reflection of a file tree carries scratch paths"})
+                        log.append([oi, kind, "skipped"])
+                        continue
                     if g == "reflection" and sid in from_file:
                         # the reflection record contains the source file name of every node: a tree parsed from a
                         # scratch path is a different input, not a nondeterminism; compare like with like
@@ -122,7 +150,7 @@ def main() -> None:
                     if reused:
                         t = trees[sid]
                     else:
-                        pr = P.get_fcp_from_string(schemas[sid], E.Logger({}))
+                        pr = parse_schema(sid, E.Logger({}))
                         if pr.is_err():
                             # the schema does not even parse in this process: an outcome, to be compared with the baseline
                             obs.append({"op": oi, "generator": g, "schema": sid, "reused": False, "disk": disk,
